@@ -1,8 +1,8 @@
 (* Limit bids of x/auctionsV2 AS CODED (keeper/bid.go DepositLimitAuctionBid, CancelLimitAuctionBid,
    WithdrawLimitAuctionBid; keeper/auctions.go LimitOrderBid = the automatic fill), statement by
    statement, after the two repairs
-     fixed: property=C11 PENDING WithdrawLimitAuctionBid checked neither amount <= own deposit nor the denom (C11-F1)
-     fixed: property=C11 PENDING LimitOrderBid left BidValue stale when the deposit equalled the auction debt (C11-F2)
+     fixed: property=C11 7c9449c WithdrawLimitAuctionBid checked neither amount <= own deposit nor the denom (C11-F1)
+     fixed: property=C11 989e51c LimitOrderBid left BidValue stale when the deposit equalled the auction debt (C11-F2)
    Withdraw still takes amount and denom from the message, and now compares both with the
    depositor's record before anything moves.
      recs    UserLimitBid records, key (debt asset, collateral asset, premium, bidder) -> DebtToken coin
